@@ -149,15 +149,16 @@ func init() {
 				r = append(r, &Instance{Pkg: fsm, Func: "VH_C01_step", Args: []int64{k, nk, 2, v, 0}, Unwind: 32})
 			}
 			r = append(r, &Instance{Pkg: fsm, Func: "VH_C01_step", Args: []int64{6, 1, 1, -1, 1}, Unwind: 32})
+			r = append(r, &Instance{Pkg: fsm, Func: "VH_C01_bigrange", Args: []int64{3, 1536}, Unwind: 32})
 			r = append(r, &Instance{Pkg: fsm, Func: "VH_C01_vacuity", Args: []int64{2, 2, 1}, Expect: "violated"})
 			return r
 		},
-		Covers: map[string][]string{"VH_C01_reads": {"end"}, "VH_C01_step": {"end"}},
+		Covers: map[string][]string{"VH_C01_reads": {"end"}, "VH_C01_step": {"end"}, "VH_C01_bigrange": {"end"}},
 		Bounds: map[string]string{
-			"quick":    "pre-state: 0..2 pairs (0..1 for two/three-key commands), keys 1..2 arbitrary bytes, values 1 arbitrary byte, both bookkeeping keys present with arbitrary 64-bit values; operation keys/bounds 0..2 bytes incl. empty, wildcard and inverted ranges; all flag combinations; log index 1..64 (one varint class) plus one instance with any 64-bit index; batches/sequences of 2 elements; unwind 32",
+			"quick":    "pre-state: 0..2 pairs (0..1 for two/three-key commands), keys 1..2 arbitrary bytes, values 1 arbitrary byte, both bookkeeping keys present with arbitrary 64-bit values; operation keys/bounds 0..2 bytes incl. empty, wildcard and inverted ranges; all flag combinations; log index 1..64 (one varint class) plus one instance with any 64-bit index; batches/sequences of 2 elements; a range delete (all flag combinations) over three pairs with 1.5 MiB values, i.e. more than one 4 MiB read chunk; unwind 32",
 			"thorough": "as quick with 0..3 pairs and values of 0..1 bytes",
 		},
-		Outside: "larger tables, keys longer than 2 bytes (key-length effects are C12's), values >= 2 bytes and size-driven chunking of range-delete responses (4 MiB read chunk), Pebble internals (model M1: sorted map with batches/snapshots/iterators, bytewise order; inverted DeleteRange spans are no-ops)",
+		Outside: "larger tables, keys longer than 2 bytes (key-length effects are C12's), values of other sizes than 1 byte and 1.5 MiB, Pebble internals (model M1: sorted map with batches/snapshots/iterators, bytewise order; inverted DeleteRange spans are no-ops)",
 		Assumptions: []string{
 			"Pebble behaves as the sorted-map model M1 (validated against real Pebble by native replay of counterexamples; see DESIGN 2/M1)",
 			"one inductive step from an arbitrary state per command kind; histories of any length follow by induction over the command sequence",
